@@ -136,14 +136,22 @@ class Gen:
         return ty
 
     def untyped_leaves(self, ty):
-        """pydantic validates and converts what its constructor is given (True -> 1 for an int field), also when
-        a pydantic source class becomes the destination of a copy conversion: its leaves stay untyped"""
-        t = ty["t"]
-        if t == "leaf":
+        """pydantic validates and *converts* what its constructor is given (True -> 1 for an int field, a tuple
+        -> list for a List field), also for nested models of other kinds and when a pydantic source class becomes
+        the destination of a copy conversion: every type without a model inside is declared Any there"""
+        def has_model(t):
+            if t["t"] == "model":
+                return True
+            if t["t"] in ("opt", "iter"):
+                return has_model(t["a"])
+            if t["t"] == "dict":
+                return has_model(t["v"])
+            return False
+        if not has_model(ty):
             return leaf(LEAF_ANY)
+        t = ty["t"]
         if t == "opt":
-            inner = self.untyped_leaves(ty["a"])
-            return inner if inner == leaf(LEAF_ANY) else {"t": "opt", "a": inner}
+            return {"t": "opt", "a": self.untyped_leaves(ty["a"])}
         if t == "iter":
             return {"t": "iter", "o": ty["o"], "a": self.untyped_leaves(ty["a"])}
         if t == "dict":
@@ -205,8 +213,9 @@ class Gen:
         """destination type for a source type; nested models get their own edited destination class"""
         t = ty["t"]
         if t == "model":
-            if self.chance(0.08):
-                return ty                     # the very same class on both sides (copy conversion)
+            if self.chance(0.08) and not self.pyd:
+                return ty                     # the very same class on both sides (copy conversion); never with
+                #                               pydantic around: as a destination it would convert typed fields
             d = self.dst_model(src_by_id[ty["cls"]], src_by_id, dst_kind_pool, plan, path, top=False,
                                under_pyd=kind == "pydantic")
             return model_ty(d["id"])
@@ -246,6 +255,8 @@ class Gen:
                 edits.append(("drop", f["id"]))
                 continue
             ty = self.retype(f["ty"], src_by_id, dst_kind_pool, plan, path + [fid], lkind)
+            if lkind == "pydantic":
+                ty = self.untyped_leaves(ty)
             if r < 0.30:
                 new = rng.choice([n for n in FIELD_NAMES if n not in used and n != f["id"]] or [f["id"] + "2"])
                 edits.append(("rename", f["id"], new))
@@ -567,7 +578,7 @@ class Gen:
             if sf["id"] in [p["name"] for p in params] or sf["id"].startswith("_"):
                 continue
             p = {"name": sf["id"], "kind": "kw_only", "ty": leaf(LEAF_ANY)}
-            if self.chance(0.3):
+            if self.chance(0.3) and not (self.pyd and sf["ty"]["t"] != "leaf"):
                 p["annotated"] = True
                 p["ty"] = sf["ty"] if self.chance(0.85) else leaf(LEAF_STR)
             params.append(p)
